@@ -31,4 +31,5 @@ RangeSelfTest ==
   /\ Judge("string", "p2", S(<<255>>)).d = "either" /\ Judge("string", "p2", S(<<97>>)).d = "accept"
   /\ Judge("string", "p2", [t |-> "bytes", v |-> <<97>>]).d = "either" /\ Judge("bool", "p2", IV(1)).d = "reject"
   /\ Judge("double", "p2", IV(3)).want.v = FloatOfSmallInt(FALSE, 3) /\ Judge("float", "p2", IV(16777217)).want.mode = "float"
+ASSUME RangeSelfTest
 =============================================================================
